@@ -1,8 +1,8 @@
 (* C09 -- Termination is prompt, total and never misattributed (the library's own logic: the set-once
    result cell, the worker's exit protocol, the error mapping; "bounded time" is bounded steps of the model;
    runtime wake-ups are observed by the wire suites). *)
-From WT.Model Require Import Base Varint Ids Frame Runner Term.
-From WT.Proofs Require Import TermP.
+From WT.Model Require Import Base Varint Ids Frame Runner Term Closing.
+From WT.Proofs Require Import TermP ClosingP.
 
 Theorem C09_at_most_one_result :
   forall (V : Type) ops (c : cell V),
@@ -39,6 +39,36 @@ Theorem C09_worker_exit_code :
                       | _ => None
                       end.
 Proof. exact worker_exit_code. Qed.
+
+(* ---- every pending or later accept call observes the end (Model/Closing.v: who keeps a channel open) ---- *)
+(* a call reports the end exactly when its own channel is empty, the worker has ended and no task of ITS kind is left *)
+Theorem C09_accept_reports_end_iff :
+  forall k s, snd (accept k s) = AErr <->
+    kchan (kof k s) = [] /\ worker_alive s = false /\ kparked (kof k s) = [] /\ kreading (kof k s) = [].
+Proof. exact accept_err_iff. Qed.
+(* the other kind of stream never matters: however large its backlog, however many of its tasks are parked *)
+Theorem C09_end_reported_despite_other_backlog :
+  forall s, kchan (cbi (worker_exit s)) = [] -> kparked (cbi (worker_exit s)) = [] ->
+    snd (accept KBi (worker_exit s)) = AErr.
+Proof. exact end_reported_despite_other_backlog. Qed.
+Theorem C09_accept_independent_of_other_kind :
+  forall s s',
+    (cuni s = cuni s' -> worker_alive s = worker_alive s' -> snd (accept KUni s) = snd (accept KUni s')) /\
+    (cbi s = cbi s' -> worker_alive s = worker_alive s' -> snd (accept KBi s) = snd (accept KBi s')).
+Proof. exact accept_independent_of_other_kind. Qed.
+(* an application that keeps accepting after the end is handed the whole backlog, in order, then the end --
+   bounded by the size of the backlog, for every capacity and backlog *)
+Theorem C09_draining_reaches_the_end :
+  forall cap k, (1 <= cap)%nat -> forall q s, quiet cap k s -> queue k s = q ->
+    drain_calls cap k (S (length q)) s = map AItem q ++ [AErr].
+Proof. exact drain_reaches_the_end. Qed.
+(* a design in which the per-stream tasks keep BOTH channels open is refuted: one parked task of the other
+   kind and the call never returns (this is seeded change C09-5) *)
+Theorem C09_shared_senders_refuted :
+  let s := mkcst (mkkst [1; 2; 3; 4] [5] []) (mkkst [] [] []) false in
+  snd (accept KBi s) = AErr /\ snd (accept_shared KBi s) = APending /\
+  snd (accept_shared KBi (task_send 1 KBi s)) = APending.
+Proof. exact shared_senders_refuted. Qed.
 
 Example C09_example :
   snd (crun (mkcell (@None N) 1) [CGet; CSet 7; CSet 9; CGet; CDropSetter; CGet]) =
